@@ -225,16 +225,18 @@ class Monitors:
         return hp
 
 
-def scenario(sseed, kind, mode, res):
-    """Run one scenario on the implementation, return (lines, expect, doc)."""
+def scenario(sseed, kind, mode, res, crash_at=None, second=None, maxlen=60):
+    """Run one scenario on the implementation, return (lines, expect, doc).
+    crash_at = k: the process dies just before the (k+1)-th file write of the whole scenario (then a
+    fresh oracle reloads and the schedule goes on); second = k2: it dies again k2 writes later."""
     kt = impl()
     R = random.Random(sseed)
-    doc = {"suite": "oracle", "kind": kind, "mode": mode, "seed": sseed}
+    doc = {"suite": "oracle", "kind": kind, "mode": mode, "seed": sseed, "crash_at": crash_at, "second": second, "maxlen": maxlen}
     lines, expect = [], []
     gate = WriteGate()
     tags = collections.Counter()
     with tempdir("kto") as d, tempdir("kto2") as d2:
-        specs = gen.rand_specs(R, finite=(kind == "grid"))
+        specs = gen.rand_specs(R, finite=(kind == "grid"), nonfixed=(kind == "bayes"))
         o = gen.make_oracle(R, kind, specs, d)
         doc["config"] = dict(max_trials=o.max_trials, max_retries=o.max_retries_per_trial,
                              max_consec=o.max_consecutive_failed_trials, direction=o.objective.direction, nspace=len(specs))
@@ -246,11 +248,16 @@ def scenario(sseed, kind, mode, res):
         hold = {}
         tun = [f"w{i}" for i in range(R.randint(1, 4))]
         twin = None                      # C07: (uninterrupted oracle, requeued by hand)
-        L = R.randint(5, 60)
+        L = R.randint(5, maxlen)
         special_at = R.randint(2, max(2, L - 2)) if mode != "plain" else -1
         crash_armed = False
         maxpar = 0
         gate.install()
+        if crash_at is not None:
+            gate.budget = crash_at
+            crash_armed = True
+            lines.append(dict(suite="oracle", op="budget", k=crash_at))
+            expect.append("ok")
         try:
             popbox = {}
 
@@ -465,28 +472,84 @@ def scenario(sseed, kind, mode, res):
                     tags["crash"] += 1
                     if not do_reload(True):
                         break
+                    if second is not None:
+                        gate.budget = second
+                        lines.append(dict(suite="oracle", op="budget", k=second))
+                        expect.append("ok")
+                        second = None
+                        tags["second-crash-armed"] += 1
             if maxpar >= 2:
                 tags["parallel"] += 1
         finally:
             gate.remove()
     doc["tags"] = dict(tags)
+    doc["writes"] = gate.count
     return lines, expect, doc, tags
 
 
-def guarded(sseed, kind, mode, res):
+def guarded(sseed, kind, mode, res, **kw):
     """an exception escaping an oracle call (other than the documented abort) is itself a failure of the
     property the scenario exercises: the trial in hand is lost / the project is not resumable"""
     import traceback
     try:
-        return scenario(sseed, kind, mode, res)
+        return scenario(sseed, kind, mode, res, **kw)
     except Violation:
         raise
     except Exception as e:
         tb = traceback.extract_tb(e.__traceback__)
         where = next((f"{os.path.basename(f.filename)}:{f.name}" for f in reversed(tb) if "keras_tuner" in f.filename), "?")
-        pid = {"plain": "C01", "reload": "C07", "crash": "C08"}[mode]
+        pid = {"plain": "C01", "reload": "C07", "crash": "C08"}[mode] if kw.get("crash_at") is None else "C08"
         raise Violation(pid, f"{type(e).__name__}: {str(e)[:120]} raised in {where} ({mode} scenario, {kind})",
                         {"exception": type(e).__name__, "where": where, "kind": kind})
+
+
+def run_crash_all(seed, tier, n=None, kinds=KINDS):
+    """C08: for each scenario, EVERY crash point k (just before the (k+1)-th file write of the scenario),
+    restart, compare the reloaded state with the model, continue the schedule; thorough adds a second crash."""
+    res = Result("oracle-crash")
+    res.rule = ("short random schedules (5-14 requests, 1-3 tuners) on the four oracle kinds; for each scenario every crash "
+                "index k over all its file writes is enumerated (process dies before write k+1, fresh oracle reloads, schedule "
+                "continues); thorough: a second crash k2 writes after the restart; each (scenario, k) is a distinct non-trivial case")
+    n = n or (36 if tier == "quick" else 400)
+    R = random.Random(seed ^ 0xC08)
+    all_lines, spans = [], []
+    for i in range(n):
+        kind = kinds[i % len(kinds)]
+        sseed = R.randrange(1 << 30)
+        try:
+            _, _, doc0, _ = guarded(sseed, kind, "plain", res, maxlen=14)
+        except Violation as v:
+            res.violations.append({"pid": v.pid, "what": v.what, "sig": v.sig,
+                                   "replay": {"suite": "oracle", "kind": kind, "mode": "plain", "seed": sseed, "maxlen": 14}})
+            continue
+        W = doc0["writes"]
+        res.hist["writes-per-scenario"] += W
+        for k in range(W + 1):
+            second = R.randint(0, 4) if tier == "thorough" else None
+            rdoc = {"suite": "oracle", "kind": kind, "mode": "plain", "seed": sseed, "crash_at": k, "second": second, "maxlen": 14}
+            try:
+                lines, expect, doc, tags = guarded(sseed, kind, "plain", res, crash_at=k, second=second, maxlen=14)
+            except Violation as v:
+                res.violations.append({"pid": v.pid, "what": v.what, "sig": v.sig, "replay": rdoc})
+                res.scenarios += 1
+                continue
+            res.scenarios += 1
+            res.hist.update(tags)
+            spans.append((len(all_lines), lines, expect, rdoc))
+            all_lines += lines
+            if tags.get("crash-reload"):
+                res.nontrivial.add((sseed, k, second))
+            if len(res.samples) < 2 and tags.get("crash-reload") and k > 2:
+                res.samples.append({"scenario": doc, "ops": lines[:10], "impl_answers": expect[:10]})
+    try:
+        out = run_driver(all_lines)
+    except Exception as e:
+        res.errors.append(f"model driver unavailable: {e}")
+        return res
+    for start, lines, expect, doc in spans:
+        compare(res, lines, expect, out[start:start + len(lines)], doc)
+    res.nontrivial = {hashlib.sha1(repr(x).encode()).hexdigest() for x in res.nontrivial}
+    return res
 
 
 def run(seed, tier, n=None, kinds=KINDS, modes=("plain", "plain", "reload", "crash")):
@@ -532,7 +595,7 @@ def run(seed, tier, n=None, kinds=KINDS, modes=("plain", "plain", "reload", "cra
 def replay(doc):
     res = Result("oracle")
     try:
-        lines, expect, d, tags = guarded(doc["seed"], doc["kind"], doc["mode"], res)
+        lines, expect, d, tags = guarded(doc["seed"], doc["kind"], doc["mode"], res, **{k: doc[k] for k in ("crash_at", "second", "maxlen") if k in doc and doc[k] is not None})
     except Violation as v:
         res.violations.append({"pid": v.pid, "what": v.what, "sig": v.sig, "replay": doc})
         return res
